@@ -40,10 +40,14 @@ def main():
     patch = os.path.join(deliver, f"{which}.diff")
     demo = os.path.join(deliver, f"demo_{which}.py")
     if not (os.path.exists(patch) and os.path.exists(demo)):
-        print(f"{sid}: missing deliverables in {deliver}")
-        return 2
-    shutil.copy(patch, os.path.join(out, "patch.diff"))
-    shutil.copy(demo, os.path.join(out, "demo.py"))
+        # already stored under /verif/seeded: re-confirm from there
+        patch, demo = os.path.join(out, "patch.diff"), os.path.join(out, "demo.py")
+        if not (os.path.exists(patch) and os.path.exists(demo)):
+            print(f"{sid}: missing deliverables in {deliver} and {out}")
+            return 2
+    else:
+        shutil.copy(patch, os.path.join(out, "patch.diff"))
+        shutil.copy(demo, os.path.join(out, "demo.py"))
     notes = os.path.join(deliver, "NOTES.md")
     if os.path.exists(notes):
         shutil.copy(notes, os.path.join(out, "NOTES.agent.md"))
